@@ -119,7 +119,7 @@ theorem optimizeGenSP_eq_model (run : Nat) (pst : Persist) (r : RunSpec) :
 
 /-- `Goal.is_empty`, read through the table of the translator -/
 def isEmptyGenC10 (g : Goal) : Bool :=
-  (if ((!(g.targetMin.isSeries || (anyFinite g.targetMin))) && (!(g.targetMax.isSeries || (anyFinite g.targetMax)))) then false else ((!(anyFinite g.targetMin)) && (!(allFinite g.targetMax))))
+  (if ((!(g.targetMin.isSeries || (anyFinite g.targetMin))) && (!(g.targetMax.isSeries || (anyFinite g.targetMax)))) then false else ((!(anyFinite g.targetMin)) && (!(anyFinite g.targetMax))))
 
 theorem isEmptyGen_eq_model (g : Goal) : isEmptyGenC10 g = C10.isEmpty g := by
   unfold isEmptyGenC10 C10.isEmpty
